@@ -582,23 +582,26 @@ pub fn gen(seed: u64, tier: &str, w: &mut impl Write, stats: &mut Stats) {
     writeln!(w, "CRC 1d0f").unwrap();
     writeln!(w, "CRC 06000cf0000400558873c900000521").unwrap();
     stats.add("crc_vectors", 7);
-    let nmsg = if thorough { 20_000 } else { 1500 };
-    for k in 0..nmsg {
+    let ncase = if thorough { 2500 } else { 190 };
+    for k in 0..ncase {
         let (sub, mut r) = rng.fork();
         writeln!(w, "CASE k{} crc_random sub={sub}", k + 1).unwrap();
-        let len = match r.below(6) {
-            0 => r.below(4),
-            1 => 300 - r.below(3),
-            _ => r.below(301),
-        } as usize;
-        let m: Vec<u8> = match r.below(5) {
-            0 => vec![0u8; len],
-            1 => vec![0xFFu8; len],
-            2 => (0..len).map(|_| *r.pick(&[0u8, 1, 0x7F, 0x80, 0xFF])).collect(),
-            _ => r.bytes(len),
-        };
-        writeln!(w, "CRC {}", hex(&m)).unwrap();
-        stats.inc("crc_random");
+        for _ in 0..8 {
+            let len = match r.below(6) {
+                0 => r.below(4),
+                1 => 300 - r.below(3),
+                _ => r.below(301),
+            } as usize;
+            let m: Vec<u8> = match r.below(5) {
+                0 => vec![0u8; len],
+                1 => vec![0xFFu8; len],
+                2 => (0..len).map(|_| *r.pick(&[0u8, 1, 0x7F, 0x80, 0xFF])).collect(),
+                _ => r.bytes(len),
+            };
+            writeln!(w, "CRC {}", hex(&m)).unwrap();
+            stats.inc("crc_random");
+            stats.inc(&format!("crc_len_{}", if len == 0 { "0".to_string() } else if len < 4 { "1-3".to_string() } else if len < 298 { "4-297".to_string() } else { "298-300".to_string() }));
+        }
     }
     // every 2-octet message (reaches every register state), and (state, octet) continuations
     writeln!(w, "CASE k2oct crc_all_two_octet_messages").unwrap();
